@@ -117,7 +117,7 @@ impl PointCloud {
                 {
                     continue;
                 }
-                guids.push(n.text().unwrap_or("").to_owned())
+                guids.push(xml::text_content(&n).unwrap_or_default())
             }
             Some(guids)
         } else {
